@@ -21,7 +21,11 @@ Inductive s2c_frame :=
 | PAck (st : sid)              (* acknowledgement of an open request *)
 | PMsg (st : sid) (m : nat)    (* a message pushed by the handler *)
 | PCloseAck (st : sid)
-| PUnary (id : nat).
+| PUnary (id : nat)
+| PErr (st : sid).             (* the error frame sent under the stream's number when the handler's WriteMessage
+                                  was given a value the body codec cannot encode (serverCodec.WriteResponse): it carries
+                                  no message; a client stream in its streaming phase attaches the error to its call for
+                                  good and delivers nothing for the frame *)
 
 Inductive phase := Opening | Streaming | Closing | Gone.
 
@@ -35,7 +39,12 @@ Record cstream := {
   c_read : list rdres;         (* what ReadMessage returned, in order *)
   c_written : list nat;        (* what WriteMessage accepted, in order *)
   c_wres : list bool;          (* results of WriteMessage: true = nil, false = ErrStreamShutdown *)
-  c_lost : list nat            (* pushed messages consumed as acknowledgements (the defect of the pinned tree) *)
+  c_lost : list nat;           (* pushed messages consumed as acknowledgements, or dropped because the routing entry
+                                  was gone (the defects of the pinned tree) *)
+  c_err : bool;                (* the sticky error of an error frame has been attached: every later ReadMessage
+                                  returns its message together with that error *)
+  c_unrouted : bool            (* pinned tree only: a WriteMessage that failed to encode deleted the pending-table
+                                  entry under the stream's number; every later frame for the stream is dropped *)
 }.
 
 Record sstream := {
@@ -64,10 +73,13 @@ Record st := {
   torn : bool                         (* the server connection's teardown has run *)
 }.
 
-(* code variant: does the server write the acknowledgement before it starts the handler? *)
-Record variant := { v_ack_first : bool }.
-Definition current : variant := {| v_ack_first := true |}.
-Definition legacy : variant := {| v_ack_first := false |}.
+(* code variant: does the server write the acknowledgement before it starts the handler?
+   does a client WriteMessage that fails to encode leave the stream's routing entry alone? *)
+Record variant := { v_ack_first : bool; v_badwrite_keeps : bool }.
+Definition current : variant := {| v_ack_first := true; v_badwrite_keeps := true |}.
+Definition legacy : variant := {| v_ack_first := false; v_badwrite_keeps := true |}.
+(* the pinned tree's Conn.send: the error path of a failed encode deletes the pending-table entry *)
+Definition legacy_badwrite : variant := {| v_ack_first := true; v_badwrite_keeps := false |}.
 
 Definition init : st := {|
   cstreams := []; sstreams := []; sgone := []; w_c2s := []; w_s2c := []; sdecq := []; sstrq := [];
@@ -95,6 +107,8 @@ Inductive action :=
 (* client API *)
 | COpen (s : sid)                 (* NewStream: the open request is written *)
 | CWrite (s : sid) (m : nat)      (* Stream.WriteMessage *)
+| CWriteBad (s : sid)             (* Stream.WriteMessage of a value the codec cannot encode: Conn.send's WriteRequest
+                                     fails, nothing is sent, WriteMessage returns nil *)
 | CRead (s : sid)                 (* Stream.ReadMessage *)
 | CClose (s : sid)                (* Stream.Close *)
 | CUnary (id : nat)               (* an ordinary call on the same connection *)
@@ -110,6 +124,8 @@ Inductive action :=
 | SStart (s : sid)                (* the handler goroutine starts (pinned tree: before the acknowledgement) *)
 | SDeliver                        (* readStream worker: head of the stream queue becomes an event *)
 | SWrite (s : sid) (m : nat)      (* the handler's Stream.WriteMessage *)
+| SWriteBad (s : sid)             (* the handler's WriteMessage of a value the codec cannot encode: WriteMessage
+                                     returns nil and an error frame is sent under the stream's number *)
 | SRead (s : sid)                 (* the handler's Stream.ReadMessage *)
 (* client reader *)
 | CDecode
@@ -117,7 +133,7 @@ Inductive action :=
 
 Definition cstream0 : cstream := {|
   c_phase := Opening; c_events := []; c_closed := false; c_blocked := 0; c_read := []; c_written := [];
-  c_wres := []; c_lost := [] |}.
+  c_wres := []; c_lost := []; c_err := false; c_unrouted := false |}.
 Definition sstream0 : sstream := {|
   s_events := []; s_closed := false; s_blocked := 0; s_read := []; s_written := []; s_wres := [];
   s_acked := false; s_started := false |}.
@@ -144,31 +160,43 @@ Definition set_cq (d : list s2c_frame) (q : list (sid * nat)) (x : st) : st :=
 Definition c_do_read (c : cstream) : cstream :=
   if c_closed c then
     {| c_phase := c_phase c; c_events := c_events c; c_closed := true; c_blocked := c_blocked c;
-       c_read := c_read c ++ [Shutdown]; c_written := c_written c; c_wres := c_wres c; c_lost := c_lost c |}
+       c_read := c_read c ++ [Shutdown]; c_written := c_written c; c_wres := c_wres c; c_lost := c_lost c; c_err := c_err c; c_unrouted := c_unrouted c |}
   else match c_events c with
        | m :: r => {| c_phase := c_phase c; c_events := r; c_closed := false; c_blocked := c_blocked c;
-                      c_read := c_read c ++ [Got m]; c_written := c_written c; c_wres := c_wres c; c_lost := c_lost c |}
+                      c_read := c_read c ++ [Got m]; c_written := c_written c; c_wres := c_wres c; c_lost := c_lost c; c_err := c_err c; c_unrouted := c_unrouted c |}
        | [] => {| c_phase := c_phase c; c_events := []; c_closed := false; c_blocked := S (c_blocked c);
-                  c_read := c_read c; c_written := c_written c; c_wres := c_wres c; c_lost := c_lost c |}
+                  c_read := c_read c; c_written := c_written c; c_wres := c_wres c; c_lost := c_lost c; c_err := c_err c; c_unrouted := c_unrouted c |}
        end.
 
 (* trigger: append an event; a blocked reader takes it at once *)
 Definition c_trigger (m : nat) (c : cstream) : cstream :=
   match c_blocked c, c_events c with
   | S b, [] => {| c_phase := c_phase c; c_events := []; c_closed := c_closed c; c_blocked := b;
-                  c_read := c_read c ++ [Got m]; c_written := c_written c; c_wres := c_wres c; c_lost := c_lost c |}
+                  c_read := c_read c ++ [Got m]; c_written := c_written c; c_wres := c_wres c; c_lost := c_lost c; c_err := c_err c; c_unrouted := c_unrouted c |}
   | _, _ => {| c_phase := c_phase c; c_events := c_events c ++ [m]; c_closed := c_closed c; c_blocked := c_blocked c;
-               c_read := c_read c; c_written := c_written c; c_wres := c_wres c; c_lost := c_lost c |}
+               c_read := c_read c; c_written := c_written c; c_wres := c_wres c; c_lost := c_lost c; c_err := c_err c; c_unrouted := c_unrouted c |}
   end.
 
 (* stop(): set closed, wake every blocked reader (each returns ErrStreamShutdown) *)
 Definition c_stop (c : cstream) : cstream :=
   {| c_phase := c_phase c; c_events := c_events c; c_closed := true; c_blocked := 0;
-     c_read := c_read c ++ repeat Shutdown (c_blocked c); c_written := c_written c; c_wres := c_wres c; c_lost := c_lost c |}.
+     c_read := c_read c ++ repeat Shutdown (c_blocked c); c_written := c_written c; c_wres := c_wres c; c_lost := c_lost c; c_err := c_err c; c_unrouted := c_unrouted c |}.
 
 Definition c_set_phase (p : phase) (c : cstream) : cstream :=
   {| c_phase := p; c_events := c_events c; c_closed := c_closed c; c_blocked := c_blocked c;
-     c_read := c_read c; c_written := c_written c; c_wres := c_wres c; c_lost := c_lost c |}.
+     c_read := c_read c; c_written := c_written c; c_wres := c_wres c; c_lost := c_lost c; c_err := c_err c; c_unrouted := c_unrouted c |}.
+
+(* the sticky error of an error frame is attached *)
+Definition c_set_err (c : cstream) : cstream :=
+  {| c_phase := c_phase c; c_events := c_events c; c_closed := c_closed c; c_blocked := c_blocked c;
+     c_read := c_read c; c_written := c_written c; c_wres := c_wres c; c_lost := c_lost c; c_err := true;
+     c_unrouted := c_unrouted c |}.
+
+(* a pushed message is dropped; the loss is recorded *)
+Definition c_add_lost (m : nat) (c : cstream) : cstream :=
+  {| c_phase := c_phase c; c_events := c_events c; c_closed := c_closed c; c_blocked := c_blocked c;
+     c_read := c_read c; c_written := c_written c; c_wres := c_wres c; c_lost := c_lost c ++ [m]; c_err := c_err c;
+     c_unrouted := c_unrouted c |}.
 
 Definition s_do_read (c : sstream) : sstream :=
   if s_closed c then
@@ -213,12 +241,32 @@ Definition step (v : variant) (x : st) (a : action) : option st :=
           | _ =>
               if c_closed c then
                 Some (set_c s {| c_phase := c_phase c; c_events := c_events c; c_closed := true; c_blocked := c_blocked c;
-                                 c_read := c_read c; c_written := c_written c; c_wres := c_wres c ++ [false]; c_lost := c_lost c |} x)
+                                 c_read := c_read c; c_written := c_written c; c_wres := c_wres c ++ [false]; c_lost := c_lost c; c_err := c_err c; c_unrouted := c_unrouted c |} x)
               else
                 Some (set_wires (if lost x then w_c2s x else w_c2s x ++ [QMsg s m]) (w_s2c x)
                         (set_c s {| c_phase := c_phase c; c_events := c_events c; c_closed := false; c_blocked := c_blocked c;
                                     c_read := c_read c; c_written := c_written c ++ [m]; c_wres := c_wres c ++ [true];
-                                    c_lost := c_lost c |} x))
+                                    c_lost := c_lost c; c_err := c_err c; c_unrouted := c_unrouted c |} x))
+          end
+      | None => None
+      end
+  | CWriteBad s =>
+      (* Conn.send: WriteRequest fails to encode: nothing is sent, WriteMessage returns nil.  The pinned tree's error
+         path also deleted the pending-table entry under the stream's number *)
+      match lookup s (cstreams x) with
+      | Some c =>
+          match c_phase c with
+          | Opening => None
+          | _ =>
+              if c_closed c then
+                Some (set_c s {| c_phase := c_phase c; c_events := c_events c; c_closed := true; c_blocked := c_blocked c;
+                                 c_read := c_read c; c_written := c_written c; c_wres := c_wres c ++ [false];
+                                 c_lost := c_lost c; c_err := c_err c; c_unrouted := c_unrouted c |} x)
+              else
+                Some (set_c s {| c_phase := c_phase c; c_events := c_events c; c_closed := false; c_blocked := c_blocked c;
+                                 c_read := c_read c; c_written := c_written c; c_wres := c_wres c ++ [true];
+                                 c_lost := c_lost c; c_err := c_err c;
+                                 c_unrouted := if v_badwrite_keeps v then c_unrouted c else true |} x)
           end
       | None => None
       end
@@ -338,6 +386,22 @@ Definition step (v : variant) (x : st) (a : action) : option st :=
                                 s_started := true |} x))
       | None => None
       end
+  | SWriteBad s =>
+      (* serverCodec.WriteResponse: the body codec cannot encode the value: WriteMessage returns nil and an error
+         frame without a message is sent under the stream's number *)
+      match lookup s (sstreams x) with
+      | Some c =>
+          if negb (s_started c) then None else
+          if s_closed c then
+            Some (set_s s {| s_events := s_events c; s_closed := true; s_blocked := s_blocked c; s_read := s_read c;
+                             s_written := s_written c; s_wres := s_wres c ++ [false]; s_acked := s_acked c; s_started := true |} x)
+          else
+            Some (set_wires (w_c2s x) (if lost x then w_s2c x else w_s2c x ++ [PErr s])
+                    (set_s s {| s_events := s_events c; s_closed := false; s_blocked := s_blocked c; s_read := s_read c;
+                                s_written := s_written c; s_wres := s_wres c ++ [true]; s_acked := s_acked c;
+                                s_started := true |} x))
+      | None => None
+      end
   | SRead s =>
       match lookup s (sstreams x) with
       | Some c => if negb (s_started c) then None else Some (set_s s (s_do_read c) x)
@@ -354,7 +418,9 @@ Definition step (v : variant) (x : st) (a : action) : option st :=
               | Some c => match c_phase c with
                           | Opening => Some (set_c s (c_set_phase Streaming c) x0)
                           | Streaming =>
-                              (* a frame with the stream's number while streaming is a message: an empty one *)
+                              (* a frame with the stream's number while streaming is a message: an empty one;
+                                 without the routing entry it is dropped *)
+                              if c_unrouted c then Some x0 else
                               Some (set_cq r (cstrq x ++ [(s, 0)]) x)
                           | _ => Some x0
                           end
@@ -367,8 +433,12 @@ Definition step (v : variant) (x : st) (a : action) : option st :=
                               (* taken for the acknowledgement: the message is lost *)
                               Some (set_c s {| c_phase := Streaming; c_events := c_events c; c_closed := c_closed c;
                                                c_blocked := c_blocked c; c_read := c_read c; c_written := c_written c;
-                                               c_wres := c_wres c; c_lost := c_lost c ++ [m] |} x0)
-                          | Streaming => Some (set_cq r (cstrq x ++ [(s, m)]) x)
+                                               c_wres := c_wres c; c_lost := c_lost c ++ [m]; c_err := c_err c;
+                                               c_unrouted := c_unrouted c |} x0)
+                          | Streaming =>
+                              (* without the routing entry the message is dropped *)
+                              if c_unrouted c then Some (set_c s (c_add_lost m c) x0) else
+                              Some (set_cq r (cstrq x ++ [(s, m)]) x)
                           | _ => Some x0
                           end
               | None => Some x0
@@ -382,6 +452,15 @@ Definition step (v : variant) (x : st) (a : action) : option st :=
               Some {| cstreams := cstreams x0; sstreams := sstreams x0; sgone := sgone x0; w_c2s := w_c2s x0; w_s2c := w_s2c x0;
                       sdecq := sdecq x0; sstrq := sstrq x0; cdecq := cdecq x0; cstrq := cstrq x0;
                       unary_done := unary_done x0 ++ [id]; lost := lost x0; torn := torn x0 |}
+          | PErr s =>
+              (* the frame is consumed; a routed stream in its streaming phase keeps the error for good *)
+              match lookup s (cstreams x) with
+              | Some c => match c_phase c with
+                          | Streaming => if c_unrouted c then Some x0 else Some (set_c s (c_set_err c) x0)
+                          | _ => Some x0
+                          end
+              | None => Some x0
+              end
           end
       end
   | CDeliver =>
